@@ -62,6 +62,8 @@ func (z *Set[K]) Size() int {
 }
 
 func (z *Set[K]) Clear() {
+	z.mu.Lock()
+	defer z.mu.Unlock()
 	z.dict = make(map[K]float64)
 	z.list = newList(z.list.comparator)
 }
@@ -435,8 +437,8 @@ func (z *Set[K]) RevRangeByScoreWithOpt(max, min float64, opt RangeOpt) []Node[K
 //
 // RemoveRangeByRank is the replacement of ZREMRANGEBYRANK command of redis.
 func (z *Set[K]) RemoveRangeByRank(start, stop int) []Node[K] {
-	z.mu.RLock()
-	defer z.mu.RUnlock()
+	z.mu.Lock()
+	defer z.mu.Unlock()
 
 	// Convert negative rank to positive.
 	if start < 0 {
@@ -458,8 +460,8 @@ func (z *Set[K]) RemoveRangeByScore(min, max float64) []Node[K] {
 }
 
 func (z *Set[K]) RemoveRangeByScoreWithOpt(min, max float64, opt RangeOpt) []Node[K] {
-	z.mu.RLock()
-	defer z.mu.RUnlock()
+	z.mu.Lock()
+	defer z.mu.Unlock()
 
 	return z.list.DeleteRangeByScore(min, max, opt, z.dict)
 }
